@@ -939,3 +939,11 @@ func dependsOnResults(v ssa.Value, target func(ssa.Value) bool, depth int) bool 
 		return false
 	}, false)
 }
+
+// RecvNamed2 returns the receiver's named type of a source function, nil for plain functions and closures.
+func RecvNamed2(fn *ssa.Function) *types.Named {
+	if fn == nil || fn.Signature == nil || fn.Signature.Recv() == nil {
+		return nil
+	}
+	return NamedOf(fn.Signature.Recv().Type())
+}
